@@ -128,7 +128,7 @@ def check(ctx: Ctx, col: Collector, tier: str) -> None:
     # ------------------------------------------------------------------ PUBLICITY-TABLE
     pfi = repo.function(VISITOR, f"{VCLS}._is_public")
     col.touched(pfi)
-    names = {"plain": "run", "private": "_run", "dunder": "__str__", "init": "__init__", "mangled": "__secret", "private-trailing": "_run_"}
+    names = {"plain": "run", "private": "_run", "dunder": "__str__", "init": "__init__", "mangled": "__secret", "private-trailing": "_run_", "private-dunder-tail": "_flag__"}
     for nform, name in names.items():
         for pkind in ("Module", "Class", "Constructor"):
             for ppub in ((True, False) if pkind != "Module" else (None,)):
@@ -148,7 +148,7 @@ def check(ctx: Ctx, col: Collector, tier: str) -> None:
                         vals = {o.value if o.kind == "return" else Const(f"raise {o.exc}") for o in outs}
                         if reexp == "True":
                             want = True
-                        elif nform in ("private", "mangled", "private-trailing"):
+                        elif nform in ("private", "mangled", "private-trailing", "private-dunder-tail"):
                             want = False
                         elif pkind in ("Class", "Constructor") and nform in ("plain", "init"):
                             want = ppub
@@ -193,7 +193,7 @@ def check(ctx: Ctx, col: Collector, tier: str) -> None:
         if not (same_pkg or other_pkg):
             n3.append(fmt_facts(o.facts)[:160])
         # N2: by-name re-exports (third block): the import's qualified name is a suffix of the declaration's qualified name
-        byname = any(".qualified_imports[*].qualified_name" in k and "endswith(<qname>" in k and v for k, v in facts.items())
+        byname = any(".qualified_imports[*].qualified_name" in k and k.startswith("truthy:.endswith(") and "<qname>" in k and v for k, v in facts.items())
         whole_module = any("module_is_reexported" in k for k in facts) or any(re.search(r"in \{.*\.\*", k) and v for k, v in facts.items())
         if not byname and not whole_module:
             n2.append(fmt_facts(o.facts)[:200])
@@ -263,6 +263,29 @@ def check(ctx: Ctx, col: Collector, tier: str) -> None:
             col.bad("C04.REEXPORT-GUARDS", key, repo.loc(VISITOR, snode), f"{desc}: outcomes {sorted(verdicts)}",
                     f"`{desc}` does not make pkg.sub._deep.Deep public: the re-export is only accepted from the direct parent package or with the full qualified name, "
                     f"so a relative import that goes more than one level deep is ignored and the declaration is dropped")
+
+    # the by-name match is segment exact: `from .utils import helper` does not publish `helper` of the private twin module `_utils`
+    tit = ctx.interp(rfi, inline={"is_internal"})
+    tmf = Obj("MypyFile", (("fullname", Const("pkg._utils")), ("name", Const("_utils"))))
+    tit.run_function(rfi, {"self": Sym("self"), "name": Const("helper"), "qname": Const("pkg._utils.helper"), "parent": Obj("Module", ())},
+                     State({"self": Sym("self"), "self.api": Sym("self.api"), "self.mypy_file": tmf}))
+    tl = find_loops(tit, rfi, lambda v: "reexport_map[" in repr(v) and "wildcard" not in repr(v) and "qualified" not in repr(v))
+    if len(tl) != 1:
+        raise AnalysisError("loop over the re-exporting modules not found (twin probe)")
+    tnode2, _, _, tentry2 = tl[0]
+    e = tentry2.clone()
+    e.env["reexported_key"] = Const("utils.helper")
+    e.env["module_is_reexported"] = Const(False)
+    src = Obj("Module", (("id", Const("pkg")), ("wildcard_imports", ListV(())),
+                         ("qualified_imports", ListV((Obj("QualifiedImport", (("qualified_name", Const("utils.helper")), ("alias", Const(None)))),)))))
+    verdicts = {("True" if o.kind == "return" and o.value == Const(True) else o.kind) for o in run_body(tit, tnode2, e, src)}
+    key = f"{key0}::by-name-source::private-twin pkg._utils.helper<-utils.helper"
+    if "True" in verdicts:
+        col.bad("C04.REEXPORT-GUARDS", key, repo.loc(VISITOR, tnode2), f"outcomes {sorted(verdicts)}",
+                "`from .utils import helper` in pkg/__init__.py also makes `helper` of the private module pkg/_utils.py public: the imported name is matched as a plain string suffix "
+                "('pkg._utils.helper' ends with 'utils.helper') instead of by whole segments")
+    else:
+        col.ok("C04.REEXPORT-GUARDS", key, repo.loc(VISITOR, tnode2), f"the private twin module's declaration stays private (outcomes {sorted(verdicts)})")
 
     # ------------------------------------------------------------------ REEXPORT-TABLE (both directions, per import form)
     reexport_table(ctx, col)
@@ -347,7 +370,9 @@ def reexport_table(ctx: Ctx, col: Collector) -> None:
                     col.bad("C04.REEXPORT-TABLE", key, repo.loc(VISITOR, n1), f"returns True: {sorted(got)}; reference {want}",
                             f"module re-export (`import pkg.m [as alias]`): import names the module={inq}, no alias={anone}, alias private={apriv}, public name={ni}, parent {pk}: "
                             f"the declaration is {'made' if True in got else 'not made'} public; it should {'be' if want else 'not be'}")
-    a_end = lambda k: k.startswith("truthy:.endswith(<qname>, <Q>)")  # noqa: E731
+    # "the import names the declaration": a suffix test of the declaration's qualified name against the imported name, in any spelling
+    # (plain, or with a separator prepended to both sides so that whole segments are compared)
+    a_end = lambda k: k.startswith("truthy:.endswith(") and "<qname>" in k and "<Q>" in k  # noqa: E731
     for ni in (True, False):
         t = verdicts(n2, e2, {"not_internal": Const(ni)}, qi, [a_end, a_none, a_priv])
         for (endq, anone, apriv), got in sorted(t.items()):
